@@ -197,6 +197,23 @@ def handwritten():
     return hs
 
 
+def synthetic_trace():
+    """create + one training-mode get_action on [[1], [3]] with epsilon 1/2, computed with exact fractions."""
+    from fractions import Fraction as F
+    eps, n, S, Q = F(1, 2), 2, 4, 10
+    c = eps + n
+    m = S / c
+    v = (eps + Q) / c - m * m
+    sc = lambda x, k: int(round(float(x) * k))
+    st = lambda mm, vv, cc: [[[sc(mm, 10000), sc(vv, 10000), sc(cc, 10000)]], [], []]
+    hand = [[sc((x - float(m)) / math.sqrt(float(v + eps)), 100)] for x in (1, 3)]
+    com = {"exc": "", "alive": [True, False, False], "mode": [True, False, False]}
+    return {"cfg": {"nslots": 3, "nstat": 1, "tracked": [1], "eps": [1, 2], "family": "vector", "origin": "synthetic"},
+            "ev": [dict(com, op="create", slot=1, stats=st(0, 1, eps)),
+                   dict(com, op="act", slot=1, batch=[[1], [3]], unb=False, train=True, same=True, routed=True, hand=hand,
+                        stats=st(m, v, c))]}
+
+
 def nontrivial(h):
     acts = [o for o in h["ops"] if o["op"] == "act"]
     return len(acts) >= 1 and len(h["ops"]) >= 2
@@ -305,17 +322,19 @@ def run(ctx):
         raise Vacuous("no recorded history was accepted by RSNorm_Trace")
     ctx.extra["handed_values_compared_tight"] = tight_compare(ctx, traces, auxs, vs)
 
-    # ---- control of the validator: a perturbed copy of an accepted trace must be rejected
-    base = next(t for t, v in zip(traces, vs) if v.accepted and any(e["op"] == "act" and e.get("train") for e in t["ev"]))
+    # ---- control of the validator: a synthetic correct trace is accepted, perturbed copies are rejected
+    good = synthetic_trace()
     bad = []
     for fld, d in ((0, 5), (1, 5), (2, 5)):
-        b = json.loads(json.dumps(base))
-        k = next(i for i, e in enumerate(b["ev"]) if e["op"] == "act" and e.get("train"))
-        b["ev"][k]["stats"][b["ev"][k]["slot"] - 1][0][fld] += d
+        b = json.loads(json.dumps(good))
+        b["ev"][1]["stats"][0][0][fld] += d
         bad.append(b)
-    cv = trace_mod.validate("RSNorm_Trace", TRACE_CFG, bad)
-    if any(v.accepted for v in cv):
-        raise Vacuous("RSNorm_Trace accepts a trace whose recorded statistics were perturbed by 5e-4")
+    b = json.loads(json.dumps(good))
+    b["ev"][1]["hand"][0][0] += 5
+    bad.append(b)
+    cv = trace_mod.validate("RSNorm_Trace", TRACE_CFG, [good] + bad)
+    if not cv[0].accepted or any(v.accepted for v in cv[1:]):
+        raise Vacuous("RSNorm_Trace does not separate a correct synthetic trace from copies perturbed by 5e-4 (statistics) / 5e-2 (handed)")
 
     ctx.assume("observations on the integer grid -4..4, <= 10 training rows per wrapper, epsilon in {1/4, 1/2, 1} passed explicitly "
                "(the default 1e-4 makes the prior invisible at float32 precision and overflows TLC's integers)")
